@@ -1,5 +1,509 @@
 package interp
 
-// File-system model (storage tier) — filled in by fsmodel.go
+// In-memory file-system model with an operation log, symbolic fault injection
+// and crash points, and a framing model of compress/gzip (DESIGN.md §5).
+//
+//   - path -> bytes; directories are implicit (MkdirAll records them);
+//   - every mutating call (MkdirAll, create, each file Write, Close of a written
+//     file, Remove) is one numbered operation;
+//   - vFSFailAt(n): operation n returns an error instead of taking effect (C17);
+//   - vFSCrashAt(n): when operation n is about to run the modelled process dies
+//     (engine-level panic caught by vRunUntilCrash) leaving the directory as it
+//     is at that instant (C10);
+//   - gzip: file bytes = header(2) || payload || trailer(5); a reader over a
+//     file without a valid trailer yields the payload bytes present and then
+//     io.ErrUnexpectedEOF; an empty or headerless file fails at NewReader.
 
-func resetFS() {}
+import (
+	"fmt"
+	"go/types"
+	"sort"
+	"strings"
+
+	"golang.org/x/tools/go/ssa"
+)
+
+type fsNode struct {
+	data []value
+}
+
+type fsOp struct {
+	Kind string
+	Path string
+	N    int
+}
+
+type fsModelT struct {
+	files   map[string]*fsNode
+	dirs    map[string]bool
+	log     []fsOp
+	ops     int
+	failAt  int
+	crashAt int
+	pid     int
+}
+
+type fsCrash struct{ at int }
+
+var FS *fsModelT
+
+func resetFS() {
+	FS = &fsModelT{files: map[string]*fsNode{}, dirs: map[string]bool{}, failAt: -1, crashAt: -1, pid: 4242}
+}
+
+type modelFile struct {
+	path    string
+	node    *fsNode
+	pos     int
+	closed  bool
+	wrote   bool
+	writing bool
+}
+
+// step numbers a mutating operation; it returns false when the operation is to fail (fault injection)
+func (f *fsModelT) step(kind, path string, n int) bool {
+	idx := f.ops
+	if f.crashAt == idx {
+		f.crashAt = -1
+		panic(fsCrash{idx})
+	}
+	f.ops++
+	if f.failAt == idx {
+		f.failAt = -1
+		f.log = append(f.log, fsOp{"FAILED " + kind, path, n})
+		return false
+	}
+	f.log = append(f.log, fsOp{kind, path, n})
+	return true
+}
+
+func fileValue(fr *frame, mf *modelFile) value {
+	var cell value = mf
+	return &cell
+}
+
+func asModelFile(v value) *modelFile {
+	p, ok := v.(*value)
+	if !ok || p == nil {
+		panic(targetPanic{"invalid memory address or nil pointer dereference (nil *os.File)"})
+	}
+	mf, ok := (*p).(*modelFile)
+	if !ok {
+		panic(engineError{"os.File value not created by the file-system model"})
+	}
+	return mf
+}
+
+func errExist(fr *frame, path string) value {
+	return mkError(fr, "open "+path+": file exists")
+}
+func errNotExist(fr *frame, op, path string) value {
+	return mkError(fr, op+" "+path+": no such file or directory")
+}
+func errInjected(fr *frame, op, path string) value {
+	return mkError(fr, op+" "+path+": input/output error (injected fault)")
+}
+
+func nilFile() value { return (*value)(nil) }
+
+const (
+	oWRONLY = 0x1
+	oRDWR   = 0x2
+	oCREATE = 0x40
+	oEXCL   = 0x80
+	oTRUNC  = 0x200
+	oAPPEND = 0x400
+)
+
+func fsOpen(fr *frame, path string, flag int) value {
+	node := FS.files[path]
+	write := flag&(oWRONLY|oRDWR) != 0
+	if flag&oCREATE != 0 {
+		if node != nil && flag&oEXCL != 0 {
+			return tuple{nilFile(), errExist(fr, path)}
+		}
+		if node == nil {
+			if !FS.step("create", path, 0) {
+				return tuple{nilFile(), errInjected(fr, "open", path)}
+			}
+			node = &fsNode{}
+			FS.files[path] = node
+		} else if flag&oTRUNC != 0 {
+			if !FS.step("truncate", path, 0) {
+				return tuple{nilFile(), errInjected(fr, "open", path)}
+			}
+			node.data = nil
+		}
+	} else {
+		if node == nil {
+			return tuple{nilFile(), errNotExist(fr, "open", path)}
+		}
+		if flag&oTRUNC != 0 {
+			node.data = nil
+		}
+	}
+	mf := &modelFile{path: path, node: node, writing: write}
+	if flag&oAPPEND != 0 {
+		mf.pos = len(node.data)
+	}
+	return tuple{fileValue(fr, mf), iface{}}
+}
+
+func init() {
+	for k, v := range map[string]externalFn{
+		"os.MkdirAll": func(fr *frame, a []value) value {
+			p := a[0].(string)
+			if FS.dirs[p] {
+				return iface{}
+			}
+			if !FS.step("mkdir", p, 0) {
+				return errInjected(fr, "mkdir", p)
+			}
+			FS.dirs[p] = true
+			return iface{}
+		},
+		"os.OpenFile": func(fr *frame, a []value) value { return fsOpen(fr, a[0].(string), asInt(a[1])) },
+		"os.Create":   func(fr *frame, a []value) value { return fsOpen(fr, a[0].(string), oRDWR|oCREATE|oTRUNC) },
+		"os.Open":     func(fr *frame, a []value) value { return fsOpen(fr, a[0].(string), 0) },
+		"os.Remove": func(fr *frame, a []value) value {
+			p := a[0].(string)
+			if FS.files[p] == nil {
+				return errNotExist(fr, "remove", p)
+			}
+			if !FS.step("remove", p, 0) {
+				return errInjected(fr, "remove", p)
+			}
+			delete(FS.files, p)
+			return iface{}
+		},
+		"os.IsExist": func(fr *frame, a []value) value {
+			return strings.Contains(errText(fr, a[0]), "file exists")
+		},
+		"os.IsNotExist": func(fr *frame, a []value) value {
+			return strings.Contains(errText(fr, a[0]), "no such file or directory")
+		},
+		"os.ReadDir": func(fr *frame, a []value) value {
+			dir := a[0].(string)
+			if !FS.dirs[dir] {
+				return tuple{[]value(nil), errNotExist(fr, "open", dir)}
+			}
+			idx := FS.ops
+			if FS.failAt == idx { // reads can be failed too (unlistable directory); they are not logged as mutations
+				FS.failAt = -1
+				FS.ops++
+				return tuple{[]value(nil), errInjected(fr, "readdir", dir)}
+			}
+			FS.ops++
+			var names []string
+			for p := range FS.files {
+				if strings.HasPrefix(p, dir+"/") && !strings.Contains(p[len(dir)+1:], "/") {
+					names = append(names, p[len(dir)+1:])
+				}
+			}
+			sort.Strings(names)
+			T := fr.i.prog.ImportedPackage("os").Type("unixDirent").Object().Type()
+			var out []value
+			for _, n := range names {
+				st := zero(T).(structure)
+				st[0] = dir
+				st[1] = n
+				var cell value = st
+				out = append(out, iface{t: types.NewPointer(T), v: &cell})
+			}
+			return tuple{out, iface{}}
+		},
+		"os.Stat": func(fr *frame, a []value) value {
+			p := a[0].(string)
+			node := FS.files[p]
+			if node == nil {
+				return tuple{iface{}, errNotExist(fr, "stat", p)}
+			}
+			T := fr.i.prog.ImportedPackage("os").Type("fileStat").Object().Type()
+			st := zero(T).(structure)
+			st[0] = p
+			st[1] = int64(len(node.data))
+			var cell value = st
+			return tuple{iface{t: types.NewPointer(T), v: &cell}, iface{}}
+		},
+		"(*os.File).Write": func(fr *frame, a []value) value {
+			mf := asModelFile(a[0])
+			data := a[1].([]value)
+			if mf.closed {
+				return tuple{0, mkError(fr, "write "+mf.path+": file already closed")}
+			}
+			if !FS.step("write", mf.path, len(data)) {
+				return tuple{0, errInjected(fr, "write", mf.path)}
+			}
+			mf.node.data = append(mf.node.data[:min2(mf.pos, len(mf.node.data))], data...)
+			mf.pos += len(data)
+			mf.wrote = true
+			return tuple{len(data), iface{}}
+		},
+		"(*os.File).WriteString": func(fr *frame, a []value) value {
+			mf := asModelFile(a[0])
+			s := a[1].(string)
+			if mf.closed {
+				return tuple{0, mkError(fr, "write "+mf.path+": file already closed")}
+			}
+			if !FS.step("write", mf.path, len(s)) {
+				return tuple{0, errInjected(fr, "write", mf.path)}
+			}
+			for i := 0; i < len(s); i++ {
+				mf.node.data = append(mf.node.data, s[i])
+			}
+			mf.pos += len(s)
+			mf.wrote = true
+			return tuple{len(s), iface{}}
+		},
+		"(*os.File).Read": func(fr *frame, a []value) value {
+			mf := asModelFile(a[0])
+			buf := a[1].([]value)
+			if mf.closed {
+				return tuple{0, mkError(fr, "read "+mf.path+": file already closed")}
+			}
+			if mf.pos >= len(mf.node.data) {
+				return tuple{0, ioErr(fr, "EOF")}
+			}
+			n := copy(buf, mf.node.data[mf.pos:])
+			mf.pos += n
+			return tuple{n, iface{}}
+		},
+		"(*os.File).Close": func(fr *frame, a []value) value {
+			mf := asModelFile(a[0])
+			if mf.closed {
+				return mkError(fr, "close "+mf.path+": file already closed")
+			}
+			if mf.wrote {
+				if !FS.step("close", mf.path, 0) {
+					return errInjected(fr, "close", mf.path)
+				}
+			}
+			mf.closed = true
+			return iface{}
+		},
+		"(*os.File).Sync": func(fr *frame, a []value) value { return iface{} },
+		"(*os.File).Name": func(fr *frame, a []value) value { return asModelFile(a[0]).path },
+
+		// ---- gzip framing model ----
+		"compress/gzip.NewWriter": func(fr *frame, a []value) value {
+			var cell value = &gzWriter{w: a[0].(iface)}
+			return &cell
+		},
+		"(*compress/gzip.Writer).Write": func(fr *frame, a []value) value {
+			g := (*(a[0].(*value))).(*gzWriter)
+			if g.closed {
+				return tuple{0, mkError(fr, "gzip: write to closed writer")}
+			}
+			if e := g.header(fr); e != nil {
+				return tuple{0, e}
+			}
+			data := a[1].([]value)
+			r := callMethod(fr, g.w, "Write", append([]value(nil), data...)).(tuple)
+			if e := r[1].(iface); e.t != nil {
+				return tuple{0, r[1]}
+			}
+			g.n += len(data)
+			return tuple{len(data), iface{}}
+		},
+		"(*compress/gzip.Writer).Flush": func(fr *frame, a []value) value { return iface{} },
+		"(*compress/gzip.Writer).Close": func(fr *frame, a []value) value {
+			g := (*(a[0].(*value))).(*gzWriter)
+			if g.closed {
+				return iface{}
+			}
+			if e := g.header(fr); e != nil {
+				return e
+			}
+			g.closed = true
+			n := g.n
+			tr := []value{uint8(n), uint8(n >> 8), uint8(n >> 16), uint8(n >> 24), uint8(0x47)}
+			r := callMethod(fr, g.w, "Write", tr).(tuple)
+			return r[1]
+		},
+		"compress/gzip.NewReader": func(fr *frame, a []value) value {
+			r := a[0].(iface)
+			// read the whole underlying stream
+			var all []value
+			for guard := 0; guard < 1<<20; guard++ {
+				buf := make([]value, 512)
+				for i := range buf {
+					buf[i] = uint8(0)
+				}
+				res := callMethod(fr, r, "Read", buf).(tuple)
+				n := asInt(res[0])
+				all = append(all, buf[:n]...)
+				if e := res[1].(iface); e.t != nil {
+					break
+				}
+				if n == 0 {
+					break
+				}
+			}
+			if len(all) < 2 || !byteIs(all[0], 0x1f) || !byteIs(all[1], 0x8b) {
+				if len(all) == 0 {
+					return tuple{(*value)(nil), ioErr(fr, "EOF")}
+				}
+				if len(all) < 2 {
+					return tuple{(*value)(nil), ioErr(fr, "ErrUnexpectedEOF")}
+				}
+				return tuple{(*value)(nil), mkError(fr, "gzip: invalid header")}
+			}
+			body := all[2:]
+			g := &gzReader{}
+			if n := len(body); n >= 5 && byteIs(body[n-1], 0x47) {
+				l := 0
+				okc := true
+				for i := 0; i < 4; i++ {
+					b, ok := body[n-5+i].(uint8)
+					if !ok {
+						okc = false
+						break
+					}
+					l |= int(b) << (8 * uint(i))
+				}
+				if okc && l == n-5 {
+					g.data = body[:n-5]
+					g.complete = true
+				}
+			}
+			if !g.complete {
+				g.data = body // whatever payload reached the file, then an unexpected EOF
+			}
+			var cell value = g
+			return tuple{&cell, iface{}}
+		},
+		"(*compress/gzip.Reader).Read": func(fr *frame, a []value) value {
+			g := (*(a[0].(*value))).(*gzReader)
+			buf := a[1].([]value)
+			if g.pos >= len(g.data) {
+				if g.complete {
+					return tuple{0, ioErr(fr, "EOF")}
+				}
+				return tuple{0, ioErr(fr, "ErrUnexpectedEOF")}
+			}
+			n := copy(buf, g.data[g.pos:])
+			g.pos += n
+			return tuple{n, iface{}}
+		},
+		"(*compress/gzip.Reader).Close": func(fr *frame, a []value) value { return iface{} },
+
+		// ---- harness control ----
+		cometPath + ".vFSFailAt":  func(fr *frame, a []value) value { FS.failAt = asInt(a[0]); return nil },
+		cometPath + ".vFSCrashAt": func(fr *frame, a []value) value { FS.crashAt = asInt(a[0]); return nil },
+		cometPath + ".vFSOps":     func(fr *frame, a []value) value { return FS.ops },
+		cometPath + ".vFSExists":  func(fr *frame, a []value) value { return FS.files[a[0].(string)] != nil },
+		cometPath + ".vFSList": func(fr *frame, a []value) value {
+			var names []string
+			for p, n := range FS.files {
+				names = append(names, fmt.Sprintf("%s:%d", p, len(n.data)))
+			}
+			sort.Strings(names)
+			return strings.Join(names, ",")
+		},
+		cometPath + ".vFSTruncate": func(fr *frame, a []value) value {
+			if n := FS.files[a[0].(string)]; n != nil {
+				k := asInt(a[1])
+				if k < len(n.data) {
+					n.data = n.data[:k]
+				}
+			}
+			return nil
+		},
+		cometPath + ".vFSSize": func(fr *frame, a []value) value {
+			if n := FS.files[a[0].(string)]; n != nil {
+				return len(n.data)
+			}
+			return -1
+		},
+		cometPath + ".vFSRemove": func(fr *frame, a []value) value { delete(FS.files, a[0].(string)); return nil },
+		cometPath + ".vFSLog": func(fr *frame, a []value) value {
+			var sb strings.Builder
+			for i, o := range FS.log {
+				fmt.Fprintf(&sb, "%d:%s %s %d;", i, o.Kind, o.Path, o.N)
+			}
+			return sb.String()
+		},
+		// vRunUntilCrash runs f; if the modelled process dies at the armed crash point it returns true
+		// (background threads die with it), otherwise false
+		cometPath + ".vRunUntilCrash": func(fr *frame, a []value) (ret value) {
+			crashed := false
+			func() {
+				defer func() {
+					if r := recover(); r != nil {
+						if _, ok := r.(fsCrash); ok {
+							crashed = true
+							S.killAll()
+							main := S.threads[0]
+							main.ready = nil
+							S = &scheduler{threads: []*thread{main}, cur: main, locks: map[*value]*lockState{}, wgs: map[*value]*int{}}
+							return
+						}
+						panic(r)
+					}
+				}()
+				call(fr.i, fr, 0, a[0], nil)
+			}()
+			FS.crashAt = -1
+			return crashed
+		},
+	} {
+		externals[k] = v
+	}
+}
+
+type gzWriter struct {
+	w       iface
+	n       int
+	started bool
+	closed  bool
+}
+
+func (g *gzWriter) header(fr *frame) value {
+	if g.started {
+		return nil
+	}
+	g.started = true
+	r := callMethod(fr, g.w, "Write", []value{uint8(0x1f), uint8(0x8b)}).(tuple)
+	if e := r[1].(iface); e.t != nil {
+		return r[1]
+	}
+	return nil
+}
+
+type gzReader struct {
+	data     []value
+	pos      int
+	complete bool
+}
+
+func byteIs(v value, b uint8) bool {
+	c, ok := v.(uint8)
+	return ok && c == b
+}
+
+func min2(a, b int) int {
+	if a < b {
+		return a
+	}
+	return b
+}
+
+func errText(fr *frame, v value) string {
+	e, ok := v.(iface)
+	if !ok || e.t == nil {
+		return ""
+	}
+	s, _ := nativeArg(fr, e).(string)
+	return s
+}
+
+// ioErr returns the io package's sentinel error value (io.EOF, io.ErrUnexpectedEOF)
+func ioErr(fr *frame, name string) value {
+	g := fr.i.prog.ImportedPackage("io").Var(name)
+	if g == nil {
+		panic(engineError{"io." + name + " not found"})
+	}
+	return *fr.i.globals[g]
+}
+
+var _ = ssa.Function{}
